@@ -557,6 +557,12 @@ def run(ck):
         c11_6(ck, prog)
         c11_7(ck, prog)
         c11_8(ck, prog)
+        from rules.C10 import c10_12
+        c10_12(ck, prog, 'C11.9')
+        r = ck.rule('C11.10', "the descriptor-reading wrappers of dbus-sysdeps-unix.c (_dbus_read, _dbus_read_socket_with_unix_fds) grow the caller's string once per call and cut it back to what was really read on every way out", 'PAIR', breaks='after an interrupted or failed read the loader buffer keeps space '
+                    'that was never filled: a valid stream is declared corrupt (or old bytes are parsed again as a '
+                    'message) depending on where the read boundary fell', floor=2)
+        lib.read_wrappers_keep_buffer(prog, r)
         from rules.C05 import QUEUES, c05_4
         r4 = ck.rule('C11.4', 'the loader queue and the connection\'s incoming queue are FIFOs (shared with C05.4)',
                      'TAB', floor=4)
